@@ -1053,6 +1053,11 @@ static int build_stack(struct session *s, struct endpoint *ep, struct buffereven
 			/* small records => many 2-byte headers => headers split across reads (filter says NEED_MORE after OK) */
 			static const size_t rm[] = { 1, 3, 16, 300, 5000, 65535 };
 			fx->rec_max = VH_PICK(&s->rng, rm);
+			/* ... but not millions of them per session */
+			{
+				size_t big = s->ep[0].total > s->ep[1].total ? s->ep[0].total : s->ep[1].total;
+				if (fx->rec_max < big / 20000 + 1) fx->rec_max = big / 20000 + 1;
+			}
 		}
 		vh_rng_seed(&fx->rng, vh_rand(&s->rng));
 		bev = bufferevent_filter_new(ep->top, t == FT_NULL ? NULL : filt_in, t == FT_NULL ? NULL : filt_out,
